@@ -1010,6 +1010,15 @@ def _pure_passthrough(prog, f, depth=0, seen=None):
             continue
         if any(not fact.belief for fact in caller.facts_at(cn)):
             continue
+        # ... and no call in front of it that may reject and is given one of the parameters ( _check_welch_args(win, noverlap, nfft); )
+        names = set()
+        for a in args:
+            a0 = a.strip_all()
+            while a0.k in ("CXXConstructExpr", "MaterializeTemporaryExpr") and len(a0.c) == 1:
+                a0 = a0.c[0].strip_all()
+            names.add("p:%s" % a0.decl["n"])
+        if _opaque_rejecting_call(prog, caller, cn, names):
+            continue
         if not _is_internal(caller):
             return caller.short
         up = _pure_passthrough(prog, caller, depth + 1, seen)
